@@ -408,9 +408,9 @@ type outcome struct {
 func mkErr(kind string) error {
 	switch kind {
 	case "temp":
-		return &simNetErr{"sim: temporary write error", true}
+		return &simNetErr{msg: "sim: temporary write error", temp: true}
 	case "perm":
-		return &simNetErr{"sim: permanent write error", false}
+		return &simNetErr{msg: "sim: permanent write error", temp: false}
 	case "plain":
 		return fmt.Errorf("sim: plain write error")
 	}
